@@ -197,6 +197,46 @@ func init() {
 				out.Violate("exclude-name:"+n, "listed lint name not usable as exclude name", n, "registry without exactly this lint", fmt.Sprint(err))
 			}
 		}
+		// ... and together with every other option: a listed name stays acceptable whatever sources, pattern or other
+		// names accompany it (including options that select the named lint away)
+		{
+			srcOf := map[string]lint.LintSource{}
+			for _, l := range g.CertificateLints().Lints() {
+				srcOf[l.Name] = l.Source
+			}
+			for _, l := range g.RevocationListLints().Lints() {
+				srcOf[l.Name] = l.Source
+			}
+			for _, l := range g.OcspResponseLints().Lints() {
+				srcOf[l.Name] = l.Source
+			}
+			allSrc := g.Sources()
+			for i, n := range names {
+				own := srcOf[n]
+				other := allSrc[i%len(allSrc)]
+				if other == own {
+					other = allSrc[(i+1)%len(allSrc)]
+				}
+				combos := []struct {
+					what string
+					o    lint.FilterOptions
+				}{
+					{"ExcludeSources of its own source + ExcludeNames", lint.FilterOptions{ExcludeSources: lint.SourceList{own}, ExcludeNames: []string{n}}},
+					{"ExcludeSources of its own source + IncludeNames", lint.FilterOptions{ExcludeSources: lint.SourceList{own}, IncludeNames: []string{n}}},
+					{"IncludeSources of another source + IncludeNames", lint.FilterOptions{IncludeSources: lint.SourceList{other}, IncludeNames: []string{n}}},
+					{"IncludeSources of another source + ExcludeNames", lint.FilterOptions{IncludeSources: lint.SourceList{other}, ExcludeNames: []string{n}}},
+					{"ExcludeNames twice and IncludeNames of another lint", lint.FilterOptions{IncludeNames: []string{names[(i+1)%len(names)]}, ExcludeNames: []string{n, n}}},
+				}
+				for _, cb := range combos {
+					if _, err := g.Filter(cb.o); err != nil {
+						out.Violate("listed-name-rejected-in-combination:"+n, "a listed lint name is rejected when combined with "+cb.what, map[string]interface{}{"name": n, "own_source": string(own), "other_source": string(other), "combination": cb.what},
+							"accepted (possibly selecting nothing)", err.Error())
+						break
+					}
+				}
+			}
+			out.Count("name_filters_in_combination", 5*len(names))
+		}
 		out.Data["names_rejected"] = badNames
 		out.Count("name_filters", 2*len(names))
 		// unknown names rejected, never ignored
